@@ -36,7 +36,7 @@ META = {
 }
 SIZES = {
     "quick": dict(pairs_per_group=8, explore_shards=10, gran="line", two=0, three=0, stress_threads=8, stress_rounds=30, cold=3, budget=4000),
-    "thorough": dict(pairs_per_group=30, explore_shards=14, gran="instr", two=150, three=40, stress_threads=16, stress_rounds=400, cold=24, budget=10**9),
+    "thorough": dict(pairs_per_group=30, explore_shards=14, gran="instr", two=150, three=40, stress_threads=16, stress_rounds=400, cold=24, budget=120000),
 }
 _POOL = {}
 
